@@ -6,8 +6,8 @@ package main
 import (
 	"fmt"
 	"go/constant"
-	"os"
 	"go/types"
+	"os"
 	"sort"
 	"strings"
 
@@ -98,6 +98,9 @@ func (ex *Exec) callCommon(fr *frame, c *ssa.CallCommon, site ssa.Instruction, g
 	}
 	key := ssaFuncKey(callee)
 	if fc, ok := ex.db.Funcs[key]; ok {
+		if ex.traceOn {
+			ex.trace = append(ex.trace, Event{Kind: "call", Guard: g, Instr: site, Callee: key, Args: args, St: s.clone(), Depth: len(ex.stack) - 1})
+		}
 		return ex.applyContract(fr, fc, callee, callee.Signature, args, nil, g, s, site, key)
 	}
 	name := callee.String()
@@ -523,6 +526,7 @@ func (ex *Exec) havocModifies(fc *FuncContract, env *SpecEnv, s *State, g string
 	oldNext := u.get(s, "next")
 	nn := u.havoc(s, "next")
 	u.fact(implies(g, app(">=", nn, oldNext)))
+	u.fact(implies(g, app(">=", nn, smtName("next"))))
 	if !fc.HasMod {
 		return
 	}
@@ -785,4 +789,33 @@ func (ex *Exec) appendRow(srt, fits, sT, tT, ln, n, oldRowS, oldRowT string) str
 	return u.defineArrayDual("app.row", "(Array Int "+srt+")",
 		fmt.Sprintf("(lambda ((%s Int)) %s)", j, body),
 		[]string{fmt.Sprintf("(forall ((%s Int)) (! (= (select $SELF %s) %s) :pattern ((select $SELF %s))))", j, j, body, j)})
+}
+
+// frameExcluded: heap keys named by explicit items of the verified function's modifies clause.
+func (ex *Exec) frameExcluded() map[string]bool {
+	if ex.frameExcl != nil {
+		return ex.frameExcl
+	}
+	ex.frameExcl = map[string]bool{}
+	fc := ex.topContract
+	if fc == nil {
+		return ex.frameExcl
+	}
+	fn := ex.stack0()
+	if fn == nil {
+		return ex.frameExcl
+	}
+	keys := map[string]bool{}
+	ex.contractModKeys(fc, fn, fn.Signature, keys)
+	for k := range keys {
+		ex.frameExcl[k] = true
+	}
+	return ex.frameExcl
+}
+
+func (ex *Exec) stack0() *ssa.Function {
+	if len(ex.stack) == 0 {
+		return nil
+	}
+	return ex.stack[0]
 }
